@@ -129,6 +129,12 @@ func (e *hdEvents) publish(kind, subject string, message *AsyncMessage) error {
 	}
 	e.mu.Lock()
 	defer e.mu.Unlock()
+	if message.Type == "sendoffer" && len(e.subs[subject]) == 0 {
+		// a "sendoffer" for an id that is no session of this server: published for a subject nobody
+		// listens to.  Discarded at once (the model has no publication for it), delivering it later
+		// would hand it to nobody.
+		return nil
+	}
 	e.seq++
 	e.queue = append(e.queue, &hdPub{Seq: e.seq, Kind: kind, Subject: subject, Data: data})
 	return nil
